@@ -9,6 +9,7 @@ import (
 	"runtime/debug"
 	"sort"
 	"strings"
+	"sync/atomic"
 	"time"
 
 	"cosmossdk.io/log"
@@ -484,7 +485,16 @@ func (w *World) EndBlock(gap time.Duration) *BlockRecord {
 	rec := BlockRecord{Height: hdr.Height, Time: hdr.Time, Txs: w.Pending}
 	w.Pending = nil
 	var resp *abci.ResponseFinalizeBlock
-	func() {
+	if blockHung.Load() {
+		// an earlier block of this process never returned (its goroutine is still spinning): nothing further can be
+		// executed meaningfully; every later attempt reports the same
+		w.BlockErr = fmt.Errorf("FinalizeBlock did not return within %s at an earlier height (block processing does not terminate)", blockDeadline())
+		w.Blocks = append(w.Blocks, rec)
+		return &w.Blocks[len(w.Blocks)-1]
+	}
+	done := make(chan struct{})
+	go func() {
+		defer close(done)
 		defer func() {
 			if r := recover(); r != nil {
 				w.BlockErr = fmt.Errorf("PANIC in FinalizeBlock/Commit at height %d: %v\n%s", hdr.Height, r, trimStack(debug.Stack()))
@@ -504,6 +514,16 @@ func (w *World) EndBlock(gap time.Duration) *BlockRecord {
 			w.BlockErr = fmt.Errorf("Commit height %d: %w", hdr.Height, err)
 		}
 	}()
+	// a block normally takes milliseconds; one that has not returned after minutes never will (a loop that makes no
+	// progress in a begin/end blocker halts the chain just like a panic does)
+	select {
+	case <-done:
+	case <-time.After(blockDeadline()):
+		blockHung.Store(true)
+		w.BlockErr = fmt.Errorf("FinalizeBlock did not return within %s at height %d (block processing does not terminate)", blockDeadline(), hdr.Height)
+		w.Blocks = append(w.Blocks, rec)
+		return &w.Blocks[len(w.Blocks)-1]
+	}
 	if w.BlockErr != nil {
 		w.Blocks = append(w.Blocks, rec)
 		return &w.Blocks[len(w.Blocks)-1]
@@ -532,6 +552,17 @@ func (w *World) EndBlock(gap time.Duration) *BlockRecord {
 	w.Blocks = append(w.Blocks, rec)
 	w.resyncSequences()
 	return &w.Blocks[len(w.Blocks)-1]
+}
+
+var blockHung atomic.Bool
+
+// blockDeadline: 300 s (four to five orders of magnitude above a normal block, also on a loaded machine); the
+// trace shrinker, which re-executes many candidates, uses 30 s.
+func blockDeadline() time.Duration {
+	if os.Getenv("VERIF_SHRINK") != "" {
+		return 30 * time.Second
+	}
+	return time.Duration(envInt("VERIF_BLOCK_DEADLINE_S", 300)) * time.Second
 }
 
 func trimStack(b []byte) string {
